@@ -257,6 +257,8 @@ PROPS["C07"] = dict(
     harnesses=[dict(pkg=FE, run="^VerifC07_Faults_p%d$" % i, replay="model", preempt=0, timeout=1500, reach=["start-error", "start-ok"] + (["callback-error"] if i & 2 else [])) for i in range(4)] + [
         # container-side relay of the sync gate (refusal before / after exec, also of a program that never ends by itself)
         dict(pkg=CT, run="^VerifC10_Ops1$", tiers=["quick", "thorough"], replay="model", preempt=1, timeout=1500, reach=["final-ping"]),
+        # the gate is never opened by end-of-file: the launcher dying inside the callback is a refusal
+        dict(pkg=FE, run="^VerifC16_LauncherDiesDuringSync$", tiers=["quick", "thorough"], replay="model", preempt=1, timeout=900, reach=["launcher-killed-in-sync-window"]),
     ],
 )
 
